@@ -422,16 +422,19 @@ func VerifC14fReconnectDuringTrim() {
 	cm.cfg.lowWater, cm.cfg.highWater, cm.cfg.gracePeriod = 1+vCase(2), 2, time.Minute
 	vC14now = time.Unix(0, t0+int64(time.Hour)) // everybody is out of the grace period
 	cx2 := &vC14conn{p: x, idx: 2}
-	reconnect := vBool()
-	if reconnect {
+	reconnect := false // did the peer reconnect inside the trim? (only if the trim really reads statistics in between)
+	if vBool() {
 		vC14meanwhile = func() { // while the trim sorts its candidates (comparing the two other peers)
 			nn.Disconnected(nil, cx)
 			nn.Connected(nil, cx2)
+			reconnect = true
 		}
-		vCover("reconnected-during-the-trim")
 	}
 	sel := cm.getConnsToClose()
 	vC14meanwhile = nil
+	if reconnect {
+		vCover("reconnected-during-the-trim")
+	}
 	// what the notifications delivered imply
 	open := map[peer.ID]*vC14conn{a: ca, b: cb, x: cx}
 	if reconnect {
